@@ -69,8 +69,8 @@ def wrap_helper(fn: ast.FunctionDef) -> bool:
 
 
 def pair_generator(fn: ast.FunctionDef) -> bool:
-    """a generator f(X) that yields (i, successor of i with wrap-around) for every i in range(len(X)):
-           count = len(X);  for i in range(count): yield i, (i + 1) % count"""
+    """a generator f(X) that yields (i, successor of i with wrap-around) -- or the elements (X[i], X[successor]) -- for
+    every i in range(len(X)):      count = len(X);  for i in range(count): yield i, (i + 1) % count"""
     args = [a.arg for a in fn.args.args]
     if len(args) != 1:
         return False
@@ -91,9 +91,14 @@ def pair_generator(fn: ast.FunctionDef) -> bool:
     N = norm(lp.iter.args[0])
     if N != "len(%s)" % args[0]:
         return False
-    if not (isinstance(y, ast.Tuple) and len(y.elts) == 2 and isinstance(y.elts[0], ast.Name) and y.elts[0].id == i):
+    if not (isinstance(y, ast.Tuple) and len(y.elts) == 2):
         return False
-    s = y.elts[1]
+    first, s = y.elts
+    # index pairs (i, (i + 1) % n)  or element pairs (X[i], X[(i + 1) % n])
+    if isinstance(first, ast.Subscript) and isinstance(s, ast.Subscript) and txt(first.value) == args[0] == txt(s.value):
+        first, s = first.slice, s.slice
+    if not (isinstance(first, ast.Name) and first.id == i):
+        return False
     return isinstance(s, ast.BinOp) and isinstance(s.op, ast.Mod) and _is_succ(s.left, i) and norm(s.right) == N
 
 
@@ -286,6 +291,17 @@ def check_cycles(ctx, res, fi: FunctionInfo, rule: str) -> int:
                     and f.self_name is not None and c.func.value.id == f.self_name and f.cls is not None and c.func.attr.startswith("_"):
                 callee = f.cls.lookup(c.func.attr)
                 if callee is not None and callee.qual not in seen and len(seen) < 8:
+                    seen.add(callee.qual)
+                    todo.append(callee)
+                    for r in cycle_loops(callee, ctx):
+                        r["fi"] = callee
+                        recs.append(r)
+            # ... or in a private module-level helper (`_fan_area(self.center_point, self.points)`)
+            if isinstance(c, ast.Call) and isinstance(c.func, ast.Name) and c.func.id.startswith("_"):
+                b = f.resolve(c.func.id)
+                if b is not None and b.kind == "func" and b.target.cls is None and b.target.qual not in seen and len(seen) < 8 \
+                        and not pair_generator(b.target.node) and not wrap_helper(b.target.node):
+                    callee = b.target
                     seen.add(callee.qual)
                     todo.append(callee)
                     for r in cycle_loops(callee, ctx):
